@@ -88,7 +88,11 @@ OUTER:
 		m.invalidateLatestSnapshotLOCKED()
 
 		stackCleanPrev = m.stackClean
-		if m.options.CachePersisted {
+		// Merge operations that were just persisted must not be cached
+		// above the lower level that now also holds them, or readers
+		// would apply those operands twice.
+		if m.options.CachePersisted &&
+			!m.stackDirtyBase.hasMergeOperations() {
 			m.stackClean = m.stackDirtyBase
 		} else {
 			m.stackClean = nil
